@@ -106,7 +106,7 @@ def build_instr():
         raise SystemExit(2)
 
 
-def build_units(cfg, work, ov):
+def build_units(cfg, work, ov, tier=None):
     shutil.copy(os.path.join(REPO, "go.mod"), os.path.join(work, "go.mod"))
     shutil.copy(os.path.join(REPO, "go.sum"), os.path.join(work, "go.sum"))
     import concurrent.futures
@@ -128,9 +128,11 @@ def build_units(cfg, work, ov):
     # units of the same package share one test binary
     first = {}
     for i, u in enumerate(cfg["units"]):
+        if tier and u.get("tiers") and tier not in u["tiers"]:
+            continue
         first.setdefault((u["package"], bool(u.get("race"))), i)
     with concurrent.futures.ThreadPoolExecutor(max_workers=4) as ex:
-        futs = [ex.submit(build_one, i, u) for i, u in enumerate(cfg["units"]) if first[(u["package"], bool(u.get("race")))] == i]
+        futs = [ex.submit(build_one, i, u) for i, u in enumerate(cfg["units"]) if first.get((u["package"], bool(u.get("race")))) == i]
         for f in futs:
             i, u, out, r, dt = f.result()
             if r.returncode != 0 or not os.path.exists(out):
@@ -141,7 +143,7 @@ def build_units(cfg, work, ov):
             bins[i] = out
             log("built %s in %.1fs" % (u["package"], dt))
     for i, u in enumerate(cfg["units"]):
-        if bins[i] is None:
+        if bins[i] is None and (u["package"], bool(u.get("race"))) in first:
             bins[i] = bins[first[(u["package"], bool(u.get("race")))]]
     return bins
 
@@ -155,6 +157,10 @@ def run_shards(cfg, work, bins, tier, replay=None, seed=0):
     hard = deadline * 1.5 + 120
     ncpu = os.cpu_count() or 4
     for ui, u in enumerate(cfg["units"]):
+        if u.get("tiers") and tier not in u["tiers"] and not replay:
+            continue
+        if replay and u.get("assumption"):
+            continue
         nsh = u.get("shards", cfg.get("shards", {})).get(tier, 1) if isinstance(u.get("shards", cfg.get("shards", {})), dict) else 1
         if replay:
             nsh = 1
@@ -196,6 +202,23 @@ def run_shards(cfg, work, bins, tier, replay=None, seed=0):
                     res = json.load(f)
             except Exception as e:  # noqa
                 res = None
+        if cfg["units"][ui].get("assumption"):
+            # free-running -race pass: checks an assumption of the exhaustive units, never a verdict
+            txt = open(os.path.join(rd, "log.txt")).read()
+            race = "WARNING: DATA RACE" in txt
+            if res is None:
+                res = {"evaluations": 0, "transitions": 0, "traces": 0, "states": 0, "nontrivial": 0, "finished": True}
+            res.setdefault("extra", {})["race_pass"] = (not race) and rc == 0
+            if race:
+                i = txt.find("WARNING: DATA RACE")
+                res["extra"]["race_excerpt"] = txt[i:i + 1500]
+                log("ASSUMPTION-WARNING property=%s the free-running -race pass reported a data race (not a verdict):\n%s" % (cfg["property"], txt[i:i + 1200]))
+            elif rc != 0:
+                log("ASSUMPTION-WARNING property=%s the free-running -race pass failed rc=%s (not a verdict)\n%s" % (cfg["property"], rc, txt[-1500:]))
+            res["violations"] = []
+            res["violations_by_class"] = {}
+            results.append(res)
+            continue
         if res is None or not res.get("finished"):
             tail = open(os.path.join(rd, "log.txt")).read()[-4000:]
             errors.append("unit %d shard %d: rc=%s no finished result\n%s" % (ui, s, rc, tail))
@@ -340,7 +363,7 @@ def main():
     try:
         t0 = time.time()
         ov = build_overlay(cfg, work)
-        bins = build_units(cfg, work, ov)
+        bins = build_units(cfg, work, ov, tier=mode if mode in ("quick", "thorough") else ("quick" if mode == "--replay" else None))
         if mode == "--build-only":
             return 0
         if mode == "--replay":
